@@ -37,7 +37,7 @@ func init() {
 		Rule: "case = one mapping of the C03 grid (incl. non-default offsets) plus a second one: binary Encode->Decode, ToProto->Marshal->Unmarshal->FromProto and EncodeProto->Unmarshal->FromProto must give mappings that are Equals both ways and agree bitwise on Index (300 probes), Value, LowerBound, RelativeAccuracy, Min/MaxIndexableValue; " +
 			"mapping from alpha Equals mapping from its (gamma, offset); Equals reflexive and symmetric on the pair; different kinds never equal; same kind with alpha >= 0.1% apart (or offsets apart) never equal. Non-trivial = non-default offset or pair of same kind with close parameters; distinct = hash of both mappings.",
 		Cases:     core.Scale(120000, 3000000),
-		Mandatory: []string{"oracle.binary_roundtrips", "oracle.proto_roundtrips", "oracle.stream_proto_roundtrips", "oracle.inequalities.kind", "oracle.inequalities.alpha", "oracle.inequalities.offset", "oracle.probe_agreements"},
+		Mandatory: []string{"oracle.binary_roundtrips", "oracle.proto_roundtrips", "oracle.stream_proto_roundtrips", "oracle.inequalities.kind", "oracle.inequalities.alpha", "oracle.inequalities.offset", "oracle.probe_agreements", "oracle.accuracy_vs_base_and_offset"},
 		Run:       runC19,
 	})
 	core.Register(&core.Prop{
@@ -423,6 +423,32 @@ func runC19(c *core.Ctx) {
 	}
 	if !a.M.Equals(a.M) {
 		c.Failf("equals.reflexive", "%s is not Equals to itself", a.Desc)
+	}
+	// a mapping built from an accuracy equals the one built from the corresponding base and offset
+	// (base ((1+a)/(1-a))^k with k = 1, ln 2, 10 ln 2 / 7; offset 0, except 1/log2(base) for the linear kind)
+	{
+		al := gen.RandAlpha(r)
+		kind := r.Intn(3)
+		if fromAlpha, err := gen.NewMap(kind, al); err == nil {
+			ratio := (1 + al) / (1 - al)
+			var g, off float64
+			switch kind {
+			case gen.KLog:
+				g, off = ratio, 0
+			case gen.KLin:
+				g = math.Pow(ratio, math.Ln2)
+				off = 1 / math.Log2(g)
+			default:
+				g, off = math.Pow(ratio, 10*math.Ln2/7), 0
+			}
+			if fromBase, err := gen.NewMapGamma(kind, g, off); err == nil {
+				c.Count("oracle.accuracy_vs_base_and_offset", 1)
+				if !fromAlpha.M.Equals(fromBase.M) || !fromBase.M.Equals(fromAlpha.M) {
+					c.Failf("accuracy_vs_base", "%s mapping built from accuracy %v (gamma %v, offset %v) is not Equals the mapping built from the corresponding base %v and offset %v",
+						gen.KindNames[kind], al, fromAlpha.Gamma, fromAlpha.Offset, g, off)
+				}
+			}
+		}
 	}
 
 	// second mapping and the inequality matrix
